@@ -299,6 +299,11 @@ impl Generator {
             })
             .collect::<Vec<_>>();
 
+        // identical statements have been merged above. two *different* statements for the same
+        // output (e.g., an `outfile` or a custom build `out` that does not depend on builder/app,
+        // or clashing download directories) would make ninja refuse the whole file.
+        check_duplicate_outputs(&combined_ninja_entries)?;
+
         for entry in combined_ninja_entries {
             ninja_build_file.write_all(entry.as_bytes())?;
         }
@@ -369,6 +374,27 @@ impl NoBuildReason {
     fn msg(&mut self, reason: String) {
         *self = NoBuildReason::Msg(reason)
     }
+}
+
+/// Returns an error if two (different) build statements in `entries` name the same output.
+fn check_duplicate_outputs(entries: &IndexSet<String>) -> Result<()> {
+    let mut producers: IndexMap<&str, &str> = IndexMap::new();
+    for entry in entries {
+        let Some((outs, _)) = entry
+            .strip_prefix("build ")
+            .and_then(|rest| rest.split_once(':'))
+        else {
+            continue;
+        };
+        for out in outs.split(' ').filter(|out| !out.is_empty()) {
+            if producers.insert(out, entry).is_some() {
+                return Err(anyhow!(
+                    "\"{out}\" would be produced by more than one build statement"
+                ));
+            }
+        }
+    }
+    Ok(())
 }
 
 #[allow(clippy::large_enum_variant)]
